@@ -137,6 +137,51 @@ func c13Scenarios(disk bool) []*schedScenario {
 			w.Net.Serve(urlB, "vb", c.vb)
 		},
 		Ops: []schedOp{c.hs(0, c.L1), c.hs(0, c.L3)},
+		// at rest both lists are in force, and both can still be refreshed: the second origin publishes a list which no
+		// longer names 103, the ticker fires, 103 is accepted
+		Post: func(x *schedCtx) string {
+			vsched.Drain()
+			w := x.W[0]
+			a := w.Lookup(c.L1, world.Chain(c.L1, c.p.CA, c.p.Root)).String()
+			b := w.Lookup(c.L3, world.Chain(c.L3, c.p.CA, c.p.Root)).String()
+			w.Net.Serve(urlB, "vb2", world.SimpleCRL(c.p.CA, 2, 199).DER())
+			w.Chk.VerifUpdateCRLs(true)
+			vsched.Drain()
+			return "at-rest:" + a + "/" + b + " after-next-refresh:" + w.Lookup(c.L3, world.Chain(c.L3, c.p.CA, c.p.Root)).String()
+		},
+		Judge: func(obs []string) (string, string) {
+			if last := obs[len(obs)-1]; last != "at-rest:REVOKED/REVOKED after-next-refresh:OK" {
+				return "C13|first-loads-in-the-background|at-rest", "two distribution points seen for the first time at the same moment (fetch_background); afterwards: " + last + " (expected both lists in force, and the second one replaced by the next refresh)"
+			}
+			return "", ""
+		},
+	})
+	// s3r: fetch_background: two handshakes see a distribution point for the first time at the same moment while a third
+	// client presents the listed certificate twice in a row. What the repository holds for the distribution point never
+	// goes back from "loaded" to "not loaded": once the listed certificate was rejected it stays rejected, and at rest it is.
+	scs = append(scs, &schedScenario{Name: name("s3r-background-first-use-twice-vs-reader"), Class: "background", NoSerialOracle: true,
+		Setup: func(x *schedCtx) {
+			w := c.mkWorld(x, bg)
+			w.Net.Serve(urlA, "v1", c.v1)
+		},
+		Ops: []schedOp{c.hs(0, c.L1), c.hs(0, c.L1), {Name: "hs(101);hs(101)", Fn: func(x *schedCtx) string {
+			a := x.W[0].Lookup(c.L1, world.Chain(c.L1, c.p.CA, c.p.Root)).String()
+			b := x.W[0].Lookup(c.L1, world.Chain(c.L1, c.p.CA, c.p.Root)).String()
+			return a + ";" + b
+		}}},
+		Post: func(x *schedCtx) string {
+			vsched.Drain()
+			return "at-rest:" + x.W[0].Lookup(c.L1, world.Chain(c.L1, c.p.CA, c.p.Root)).String()
+		},
+		Judge: func(obs []string) (string, string) {
+			if obs[2] == "REVOKED;OK" {
+				return "C13|loaded-list-unloaded|first-use-twice", "a client was rejected (the list was in force) and accepted right afterwards while two other handshakes saw the distribution point for the first time"
+			}
+			if obs[3] != "at-rest:REVOKED" {
+				return "C13|loaded-list-unloaded|first-use-twice", "at rest the listed certificate reads " + obs[3]
+			}
+			return "", ""
+		},
 	})
 	// s4: state "last refresh failed signature verification", then two handshakes
 	scs = append(scs, &schedScenario{Name: name("s4-after-failed-verification"),
